@@ -407,6 +407,10 @@ def make_timed_session(rng, seed, version, transport, pattern, mode="seq"):
         # stamped at the first login of the group, some time into the session, or before the session began (pre-aged)
         stamp = rng.choice([0, 0, 40, 200]) if g == 0 else rng.choice([0, 15, 90, 300])
         if rng.random() < 0.3: stamp = -int(rng.choice([50, 110, 118, 600]))
+        # clock skew: the authentication server's clock runs AHEAD of the secure server's - the ticket is stamped a few seconds after the
+        # instant at which it is shown (a negative age); an authentication server with such a clock still follows the protocol
+        if rng.random() < 0.4:
+            ages = list(ages) + [-rng.choice([0.5, 1.0, 3.0, 10.0, 30.0]) for _ in range(rng.randint(1, 2))]
         ages = [a for a in ages if stamp + a >= 0.25] or [max(0.5 - stamp, 120.25)]
         if mode == "hold": ages = [a for a in ages if a <= 600] or [119.75, 120.25]
         same_server = rng.random() < 0.7
